@@ -1248,11 +1248,15 @@ static int builtin_sort_array_cmp_rev (svalue_t * p1, svalue_t * p2) {
 static int sort_array_cmp (svalue_t * p1, svalue_t * p2) {
 
   svalue_t *d;
+  function_to_call_t *ftc = sort_array_ftc;
 
   push_svalue (p1);
   push_svalue (p2);
 
-  d = call_efun_callback (sort_array_ftc, 2);
+  d = call_efun_callback (ftc, 2);
+  /* a sort_array() nested in the callback that ended in an error (caught there) has left its own,
+   * now dead, structure in the global: this sort goes on with its own */
+  sort_array_ftc = ftc;
 
   if (!d || d->type != T_NUMBER)
     {
